@@ -5,6 +5,7 @@
 package rt
 
 import (
+	"bytes"
 	"context"
 	"fmt"
 	"math/rand"
@@ -24,6 +25,7 @@ import (
 	"github.com/orbs-network/lean-helix-go/state"
 	"github.com/orbs-network/scribe/log"
 
+	"verif/sim"
 	"verif/spi"
 )
 
@@ -108,6 +110,38 @@ func (k *witnessKM) VerifyConsensusMessage(h primitives.BlockHeight, content []b
 		}()
 	}
 	return k.KM.VerifyConsensusMessage(h, content, sender)
+}
+
+// VerifyRandomSeed: the random seed a COMMIT's share is verified against identifies the term that is handling it. In the
+// live-network scenarios (every sync carries the canonical proof) the seed of height h is a function of the certificate of
+// h-1; a share of a height-h COMMIT verified against another seed means the message reached the protocol logic of a term of
+// another height (C17; C08: "... for this instance and the node's current height").
+func (k *witnessKM) VerifyRandomSeed(h primitives.BlockHeight, content []byte, sender *protocol.SenderSignature) error {
+	if k.lg.net.opts.JudgeSeeds && sender != nil && len(sender.MemberId()) > 0 {
+		k.lg.net.judgeSeed(k.lg.node, uint64(h), content)
+	}
+	return k.KM.VerifyRandomSeed(h, content, sender)
+}
+
+func (net *Net) judgeSeed(node string, h uint64, content []byte) {
+	var prevSig []byte
+	if h >= 2 {
+		c := net.Canon(h - 1)
+		if c == nil {
+			net.count("C17 seed checks skipped: certificate of the previous height not recorded yet")
+			return
+		}
+		func() {
+			defer func() { recover() }()
+			prevSig = protocol.BlockProofReader(c.Proof).RandomSeedSignature()
+		}()
+	}
+	net.count("C17 commits judged for the term that handled them")
+	if want := sim.SeedBytesOf(prevSig); !bytes.Equal(content, want) {
+		for _, p := range []string{"C17", "C08"} {
+			net.violate(p, "message-handled-by-a-term-of-another-height", "node %s: the share of a COMMIT of height %d was verified against the random seed %q; the seed of that height (from the certificate of height %d) is %q: the message was handled by the protocol logic of a term of another height", node, h, content, h-1, want)
+		}
+	}
 }
 
 func (l *rtLogger) Debug(format string, args ...interface{})           { l.line(format) }
@@ -257,6 +291,7 @@ type Opts struct {
 	LogDelays       map[string]int
 	NoRouter        bool // messages are recorded only (single-node scenarios)
 	RotateCommittee bool // the committee's order depends on the height
+	JudgeSeeds      bool // judge the seed each COMMIT share is verified against (scenarios in which every sync carries the canonical proof)
 }
 
 type Net struct {
